@@ -266,21 +266,63 @@ func c09GenOp(r *rand.Rand, g *DocGen, cur W) c09Op {
 	return o
 }
 
-func c09GenSeq(r *rand.Rand, g *DocGen, n int) c09Seq {
+func c09GenSeq(r *rand.Rand, g *DocGen, n int, valueFrom bool) c09Seq {
 	doc := g.Doc(r)
 	cur := deepCopyW(doc)
 	ops := make([]c09Op, 0, n)
 	for i := 0; i < n; i++ {
 		o := c09GenOp(r, g, cur)
-		if !c09OpInScope(o) {
+		if valueFrom && o.Value != nil && r.Intn(3) == 0 {
+			// pipeline.PatchOp valueFrom: mostly an existing location (composite ones matter)
+			o.ValueFrom = c09GenPath(r, g, cur)
+			var locs []c09Loc
+			c09Locs(cur, nil, &locs)
+			if len(locs) > 0 && r.Intn(5) > 0 {
+				o.ValueFrom = pick(r, locs).p
+			}
+			o.Value = nil
+		}
+		if !c09OpInScope(o) || !c09PathInScope(o.ValueFrom) {
 			continue
 		}
 		ops = append(ops, o)
-		if nd, err := c09RefApply(cur, o); err == nil {
+		if nd, err := c09RefApply(cur, c09Resolve(cur, o)); err == nil {
 			cur = nd
 		}
 	}
 	return c09Seq{Doc: doc, Ops: ops, Via: "do"}
+}
+
+// c09Resolve fills Value from ValueFrom against the reference document.
+func c09Resolve(ref W, o c09Op) c09Op {
+	if o.ValueFrom != nil {
+		o.Value = nil
+		if v, ok := c09RefGet(ref, o.ValueFrom); ok {
+			o.Value = deepCopyW(v)
+		}
+	}
+	return o
+}
+
+// c09Dotted renders a location as the dotted property path dom.Lookup understands
+// (list indices as [i] groups), following the reference document's structure.
+func c09Dotted(ref W, toks []string) string {
+	var sb strings.Builder
+	cur := ref
+	for i, t := range toks {
+		if _, isList := cur.([]any); isList {
+			sb.WriteString("[" + t + "]")
+		} else {
+			if i > 0 {
+				sb.WriteString(".")
+			}
+			sb.WriteString(t)
+		}
+		if cur != nil {
+			cur, _ = c09RefGet(cur, []string{t})
+		}
+	}
+	return sb.String()
 }
 
 func c09Run(c *Ctx) {
@@ -288,7 +330,7 @@ func c09Run(c *Ctx) {
 	g := c09Gen()
 	for i := 0; i < c.N(1500); i++ {
 		c.Tick()
-		c.Do("seq", c09GenSeq(r, g, 10+r.Intn(31)))
+		c.Do("seq", c09GenSeq(r, g, 10+r.Intn(31), false))
 	}
 	// the same through the pipeline operation (values travel as YAML, so leaves are strings)
 	gp := c09Gen()
@@ -297,7 +339,7 @@ func c09Run(c *Ctx) {
 	gp.Strings = []string{"s", "t", "1", "true", "a b", "x.y"}
 	for i := 0; i < c.N(200); i++ {
 		c.Tick()
-		s := c09GenSeq(r, gp, 6+r.Intn(10))
+		s := c09GenSeq(r, gp, 6+r.Intn(10), true)
 		s.Via = "pipeline"
 		c.Do("seq", s)
 	}
@@ -342,13 +384,41 @@ func c09Build(o c09Op) (*patch.OpObj, error) {
 	return obj, nil
 }
 
+// c09NodeWire is nodeWire with a depth guard: a cyclic document (a node placed below itself
+// without cloning) is reported as a marker leaf instead of overflowing the stack.
+func c09NodeWire(n dom.Node, depth int) W {
+	if n == nil {
+		return nil
+	}
+	if depth > 64 {
+		return map[string]any{"t": "harness", "v": "document deeper than 64 levels (cyclic?)"}
+	}
+	switch {
+	case n.IsContainer():
+		m := map[string]any{}
+		for k, e := range n.(dom.Container).Children() {
+			m[k] = c09NodeWire(e, depth+1)
+		}
+		return map[string]any{"m": m}
+	case n.IsList():
+		items := n.(dom.List).Items()
+		l := make([]any, len(items))
+		for i, e := range items {
+			l[i] = c09NodeWire(e, depth+1)
+		}
+		return l
+	default:
+		return scalarWire(n.(dom.Leaf).Value())
+	}
+}
+
 type c09Step struct {
 	Out string `json:"out"`
 	Doc W      `json:"doc"`
 }
 
 // c09Exec applies one operation to the live document and returns the outcome.
-type c09Exec func(o c09Op) string
+type c09Exec func(o c09Op, ref W) string
 
 // c09RunSteps drives ops through exec against root, checking the property's clauses after
 // every step, and returns the executed operations (with inserted probes) and observations.
@@ -358,9 +428,10 @@ func c09RunSteps(c *Ctx, root dom.ContainerBuilder, start W, ops []c09Op, exec c
 	var obs []c09Step
 	nOK, nErr, listEdit := 0, 0, false
 	step := func(o c09Op) bool {
-		before := canon(nodeWire(root))
-		out := exec(o)
-		after := nodeWire(root)
+		before := canon(c09NodeWire(root, 0))
+		out := exec(o, ref)
+		o = c09Resolve(ref, o)
+		after := c09NodeWire(root, 0)
 		done = append(done, o)
 		obs = append(obs, c09Step{Out: out, Doc: after})
 		c.Dist("op:" + c09OpName(o.Op) + ":" + out)
@@ -401,11 +472,16 @@ func c09RunSteps(c *Ctx, root dom.ContainerBuilder, start W, ops []c09Op, exec c
 		var src dom.Node
 		var srcBefore string
 		// (a copy placed inside its own source legitimately changes the source: not probed)
-		if o.Op == "copy" && o.From != nil && probes && !c09RefProperPrefix(o.From, o.Path) && !c10SameToks(o.From, o.Path) {
-			if f, err := patch.ParsePath(c09Pointer(o.From)); err == nil {
+		srcToks := o.ValueFrom
+		if o.Op == "copy" {
+			srcToks = o.From
+		}
+		if (o.Op == "copy" || ((o.Op == "add" || o.Op == "replace") && o.ValueFrom != nil)) && srcToks != nil && o.Path != nil && probes &&
+			!c09RefProperPrefix(srcToks, o.Path) && !c10SameToks(srcToks, o.Path) {
+			if f, err := patch.ParsePath(c09Pointer(srcToks)); err == nil {
 				_, src = f.Eval(root)
 				if src != nil {
-					srcBefore = canon(nodeWire(src))
+					srcBefore = canon(c09NodeWire(src, 0))
 				}
 			}
 		}
@@ -419,8 +495,12 @@ func c09RunSteps(c *Ctx, root dom.ContainerBuilder, start W, ops []c09Op, exec c
 				if !step(probe) {
 					break
 				}
-				srcAfter := canon(nodeWire(src))
-				c.Direct("copy-is-independent-of-source", srcAfter == srcBefore,
+				srcAfter := canon(c09NodeWire(src, 0))
+				clause := "copy-is-independent-of-source"
+				if o.Op != "copy" {
+					clause = "value-read-from-document-is-independent-of-source"
+				}
+				c.Direct(clause, srcAfter == srcBefore,
 					map[string]any{"copy": o, "probe": probe, "source_before": json.RawMessage(srcBefore), "source_after": json.RawMessage(srcAfter)})
 			}
 		}
@@ -516,35 +596,48 @@ func c09Eval(c *Ctx, kind string, raw []byte) {
 		case "pipeline":
 			// values travel as YAML text into pipeline.AnyVal; what the operation really
 			// carries is read back from the decoded AnyVal
+			anyVal := func(v W) *pipeline.AnyVal {
+				txt, err := yaml.Marshal(wirePlain(v))
+				if err != nil {
+					return nil
+				}
+				av := &pipeline.AnyVal{}
+				if err := yaml.Unmarshal(txt, av); err != nil || av.Value() == nil {
+					return nil
+				}
+				return av
+			}
 			ops := make([]c09Op, 0, len(k.Ops))
-			specs := make([]*pipeline.PatchOp, 0, len(k.Ops))
 			for _, o := range k.Ops {
-				if o.Path == nil || !c09OpInScope(o) {
+				if o.Path == nil || !c09OpInScope(o) || !c09PathInScope(o.ValueFrom) {
 					continue // PatchOp cannot express an absent path ("" is the root)
 				}
+				if o.ValueFrom != nil {
+					o.Value = nil
+					c.Dist("pipeline:valueFrom")
+				} else if o.Value != nil {
+					av := anyVal(o.Value)
+					if av == nil {
+						continue
+					}
+					o.Value = nodeWire(av.Value())
+				}
+				ops = append(ops, o)
+			}
+			exec := func(o c09Op, ref W) string {
 				ps := &pipeline.PatchOp{Op: patch.Op(o.Op), Path: c09Pointer(o.Path)}
 				if o.From != nil {
 					ps.From = c09Pointer(o.From)
 				}
-				if o.Value != nil {
-					txt, err := yaml.Marshal(wirePlain(o.Value))
-					if err != nil {
-						continue
+				if o.ValueFrom != nil {
+					vf := c09Dotted(ref, o.ValueFrom)
+					ps.ValueFrom = &vf
+				} else if o.Value != nil {
+					ps.Value = anyVal(o.Value)
+					if ps.Value == nil || canon(nodeWire(ps.Value.Value())) != canon(o.Value) {
+						panic("harness: value does not survive the YAML round trip")
 					}
-					av := &pipeline.AnyVal{}
-					if err := yaml.Unmarshal(txt, av); err != nil || av.Value() == nil {
-						continue
-					}
-					ps.Value = av
-					o.Value = nodeWire(av.Value())
 				}
-				ops = append(ops, o)
-				specs = append(specs, ps)
-			}
-			i := 0
-			exec := func(o c09Op) string {
-				ps := specs[i]
-				i++
 				var err error
 				out, _ := guard(func() { err = pipeline.New(pipeline.WithData(root)).Execute(ps) })
 				if out == "panic" {
@@ -552,10 +645,13 @@ func c09Eval(c *Ctx, kind string, raw []byte) {
 				}
 				return errTag(err)
 			}
-			done, obs := c09RunSteps(c, root, k.Doc, ops, exec, false)
+			done, obs := c09RunSteps(c, root, k.Doc, ops, exec, true)
 			c09ModelCompare(c, k.Doc, done, obs)
 		default:
-			exec := func(o c09Op) string {
+			for i := range k.Ops {
+				k.Ops[i].ValueFrom = nil
+			}
+			exec := func(o c09Op, _ W) string {
 				obj, err := c09Build(o)
 				if err != nil {
 					return "err"
@@ -608,7 +704,7 @@ func c09Eval(c *Ctx, kind string, raw []byte) {
 		}
 		c.Dist(fmt.Sprintf("diff:ops=%d", min(len(ops), 8)))
 		i := 0
-		exec := func(o c09Op) string {
+		exec := func(o c09Op, _ W) string {
 			obj := objs[i]
 			i++
 			var err error
